@@ -295,6 +295,29 @@ namespace c15
                 faults += rngfault::disarm();
                 double len2 = phs->getPathLength(x.data());
                 surface++;
+                // the spheroid object is stateful: its measure must follow the transverse diameter through a history of changes
+                {
+                    double c2 = c * 1.7, c3 = c * 0.9 > dmin * 1.0000001 ? c * 0.9 : c * 1.1;
+                    auto analytic = [&](double cc) { return ompl::unitNBallMeasure((unsigned)n) * (cc / 2.0) * std::pow(std::sqrt(cc * cc - dmin * dmin) / 2.0, n - 1); };
+                    double m1 = phs->getPhsMeasure();
+                    phs->setTransverseDiameter(c2);
+                    double m2 = phs->getPhsMeasure();
+                    phs->setTransverseDiameter(c3);
+                    double m3 = phs->getPhsMeasure(), m3b = phs->getPhsMeasure(c3);
+                    double dpair = 0;
+                    for (int i = 0; i < n; i++)
+                        dpair += (S[bs][(size_t)i] - G[bg][(size_t)i]) * (S[bs][(size_t)i] - G[bg][(size_t)i]);
+                    (void)dpair;
+                    // near c = d the factor sqrt(c^2 - d^2) loses digits to cancellation in whichever way it is formed
+                    auto off = [&](double got, double cc) {
+                        double rel = 1e-9 + 1e-13 * n / std::max(1e-300, 1.0 - (dmin / cc) * (dmin / cc));
+                        return std::fabs(got - analytic(cc)) > rel * std::max(1e-300, analytic(cc));
+                    };
+                    if (off(m1, c) || off(m2, c2) || off(m3, c3) || off(m3b, c3))
+                        res.violate(P + ".phs-measure-does-not-follow-diameter",
+                                    when + fmt(": measures %.9g / %.9g / %.9g after setting the transverse diameter to %.6g, %.6g, %.6g; analytic %.9g / %.9g / %.9g", m1, m2, m3, c,
+                                               c2, c3, analytic(c), analytic(c2), analytic(c3)));
+                }
                 if (std::fabs(len - c) > 1e-9 * c)
                     res.violate(P + ".phs-surface-point-off-surface", when + fmt(": summed focal distance of a surface point is %.15g, transverse diameter %.15g", len, c));
                 else if (len2 > c * (1 + 1e-9))
